@@ -11,7 +11,7 @@ from model import formats as F
 
 SPEC = {
     "level": "exploration",
-    "technique": "round-trip monitor: independent decoder per output format applied to the real formatter's output for every output length 0..4096 bits and multi-block layouts",
+    "technique": "round-trip monitor: independent decoder per output format applied to the real formatter's output for every output length 0..4096 bits and multi-block layouts; real-binary round writing the formats over pre-existing longer files and comparing the bytes on disk",
     "level_text": ("Exploration that is exhaustive over output length: every length 0..4096 bits is produced (with "
                    "random, all-ones and sparse contents; thorough: three contents per length) and all 17 binary-data format "
                    "spellings are decoded independently and compared bit for bit; multi-block outputs (gaps from #addr, "
